@@ -65,7 +65,7 @@ def run(chk):
     ncfg = cfg_file("Trace_Num32.cfg", "CONSTANTS\n  F32 = TRUE\n  CHECK_NONNEG = FALSE\nSPECIFICATION Spec\nINVARIANT NotDone\nPOSTCONDITION TraceAccepted\nCHECK_DEADLOCK FALSE\n")
     for i, fam in enumerate(["fin", "rec", "fin", "rec"][: 2 if quick else 4]):
         tf = os.path.join(wd, "f32_%d.ndjson" % i)
-        subprocess.run([f32, "num-record", fam, str(chk.seed * 10 + i), "19", "60" if quick else "200", "0", tf], check=True, stdout=subprocess.DEVNULL)
+        subprocess.run([f32, "num-record", fam, str(chk.seed * 10 + i), "57", "40" if quick else "200", "0", tf], check=True, stdout=subprocess.DEVNULL)
         jobs.append(("Trace_Num", ncfg, tf, "value_type_f32 " + fam))
 
     # selections (incl. the median's sorted slice and binary searches) at single precision: positive and negative values, ties, +-0
